@@ -126,7 +126,12 @@ def run(
         cfg_path = os.path.join(work, module + ".cfg")
         with open(cfg_path, "w") as f:
             f.write(cfg)
-        jopts = [f"-Xmx{xmx}", "-XX:+UseParallelGC"]
+        # small single-worker runs dominate: keep the JVM's own thread count low (GC and JIT threads of a dozen
+        # concurrent JVMs on 16 cores cost more than they give)
+        if workers <= 2:
+            jopts = [f"-Xmx{xmx}", "-XX:+UseSerialGC", "-XX:CICompilerCount=2", "-Xshare:auto"]
+        else:
+            jopts = [f"-Xmx{xmx}", "-XX:+UseParallelGC", f"-XX:ParallelGCThreads={min(workers, 8)}"]
         if dfs:
             jopts.append("-Dtlc2.tool.queue.IStateQueue=StateDeque")
         cmd = ["java", *jopts, "-cp", f"{JAR}:{DEPS}", "tlc2.TLC",
